@@ -1,23 +1,30 @@
 #!/usr/bin/env python3
-"""A translator for a small IMPERATIVE fragment of Python (lists and sets of strings, mutated in place inside `if` and
-`for`) into Gallina state-passing code.  Used for functions whose hand model is a fold: the translation of /repo's current
-source is written to coq/theories/Generated/Imp.v on every run and proved EQUAL to the hand model (Order/GlyphOrderTied.v),
-so the theorems about the hand model are theorems about what the code says now.
+"""A translator for a small IMPERATIVE fragment of Python (lists / sets of names and insertion-ordered dicts, mutated in place
+inside `if` and (nested) `for`, with `continue` and `raise`) into Gallina state-passing code.  Used for functions whose hand
+model is a fold: the translation of /repo's current source is written to coq/theories/Generated/Imp.v on every run and proved
+EQUAL to the hand model (Order/GlyphOrderTied.v), so the theorems about the hand model are theorems about what the code says
+now.
 
-Fragment (everything else is fail-closed -> `imp_untranslated`, an opaque constant):
-  statements   v = e | v.append(e) | v.extend(e) | v.remove(e) | v.add(e) | if c: S [else: S] | for x in e: S
+Fragment (everything else is fail-closed -> an opaque `imp_untranslated*` constant, about which nothing can be proved):
+  statements   v = e | v.append(e) | v.extend(e) | v.remove(e) | v.add(e) | d[k] = e | if c: S [else: S] | for x in e: S
                | `continue` as the last statement of an `if` inside a loop body (the rest of the body becomes the else branch)
+               | raise E(fmt % (a, b, ...))  (the state's error slot takes (a, b, ...); once set, every later statement and
+                 iteration is a no-op -- the final value is the first error, as with a real exception)
                | return e  (last statement)
-  expressions  variable | "literal" | [] | e in v | e not in v | not c | sorted(v)
-  state        every mutable variable of the function, threaded through each statement as one tuple
-Sets are modelled as duplicate-free lists (`mem`, `remove_str`; `add` appends when absent); iteration over a set is never
-translated (its order is not defined) -- only `sorted(set)`.
+  expressions  variable | "literal" | [] | {} | e in v | e not in v | not c | sorted(v) | d[k]
+  state        every mutable variable of the function (+ the error slot), threaded through each statement as one tuple; a
+               loop body is emitted as a separate definition that takes the enclosing loop variables as parameters
+Sets are duplicate-free lists (`mem`, `remove_str`; `add` appends when absent), dicts are association lists in insertion order
+(`zget`, `zmem`, `zset`: assignment replaces in place or appends); iteration over a set is never translated (its order is not
+defined) -- only `sorted(set)`.
 
-Targets: util.makeOfficialGlyphOrder (C03)."""
+Targets: util.makeOfficialGlyphOrder, util.makeUnicodeToGlyphNameMapping (C03)."""
 import ast, os, sys
 
 REPO = os.environ.get("UFO2FT_REPO", "/repo")
-OUT = os.path.join(os.path.dirname(os.path.abspath(__file__)), "..", "coq", "theories", "Generated", "Imp.v")
+OUT = os.environ.get("IMP_OUT") or os.path.join(os.path.dirname(os.path.abspath(__file__)), "..", "coq", "theories", "Generated", "Imp.v")
+
+KIND_TYPE = {"set": "list str", "list": "list str", "dict": "list (Z * str)"}
 
 
 class Unknown(Exception):
@@ -33,49 +40,78 @@ def coq_string(s):
 
 
 class Fn:
-    """one function: `mut` = ordered mutable variables (name -> 'set' | 'list'), `params` = Gallina parameters in order,
-    `pre` = python statements (as unparsed text) that are part of the calling convention and are skipped, each with the
-    reason it may be"""
+    """one function.
+    mut      ordered {python name: 'set' | 'list' | 'dict'}: the mutable variables (the state)
+    params   {python name: Gallina type} of the immutable inputs
+    err      Gallina type of the error payload, or None when the function raises nothing
+    skip     {unparsed statement: reason}: statements that belong to the calling convention and are not translated
+    init     {unparsed initialiser: Gallina term}: initialisers that name an input
+    pairs    {param: [(python name, Gallina type), ...]}: a parameter whose elements are tuples the loop over it unpacks
+             (the loop variable is the first component; the others are bound by the statements listed in `skip`)"""
 
-    def __init__(self, name, mut, params, skip):
-        self.name, self.mut, self.params, self.skip = name, mut, params, skip
-        self.aux = []          # loop bodies emitted as separate definitions
-        self.loopvars = []
+    def __init__(self, name, mut, params, err=None, skip=None, init=None, pairs=None):
+        self.name, self.mut, self.params, self.err = name, mut, params, err
+        self.skip, self.init, self.pairs = skip or {}, init or {}, pairs or {}
+        self.aux = []
+        self.locals = {}            # loop variables in scope: python name -> Gallina type
+
+    # ---- the state tuple
+    def comps(self):
+        return [v + "_" for v in self.mut] + (["err_"] if self.err else [])
+
+    def types(self):
+        return [KIND_TYPE[k] for k in self.mut.values()] + (["option (%s)" % self.err] if self.err else [])
 
     def tup(self):
-        names = [v + "_" for v in self.mut]
-        return names[0] if len(names) == 1 else "(" + ", ".join(names) + ")"
+        c = self.comps()
+        return c[0] if len(c) == 1 else "(" + ", ".join(c) + ")"
 
     def pat(self):
-        names = [v + "_" for v in self.mut]
-        return names[0] if len(names) == 1 else "'(" + ", ".join(names) + ")"
+        c = self.comps()
+        return c[0] if len(c) == 1 else "'(" + ", ".join(c) + ")"
+
+    def state_type(self):
+        return " * ".join(self.types())
 
     # ---- expressions
+    def known(self, n):
+        return n in self.mut or n in self.params or n in self.locals
+
     def expr(self, e):
         if isinstance(e, ast.Constant) and isinstance(e.value, str):
             return strlit(e.value)
-        if isinstance(e, ast.Name) and (e.id in self.mut or e.id in self.params or e.id in self.loopvars):
+        if isinstance(e, ast.Name) and self.known(e.id):
             return e.id + "_"
         if isinstance(e, ast.List) and not e.elts:
+            return "[]"
+        if isinstance(e, ast.Dict) and not e.keys:
             return "[]"
         if isinstance(e, ast.Call) and isinstance(e.func, ast.Name) and e.func.id == "sorted" and len(e.args) == 1 \
                 and not e.keywords:
             return "(sort_str %s)" % self.expr(e.args[0])
+        if isinstance(e, ast.Subscript) and isinstance(e.value, ast.Name) and self.mut.get(e.value.id) == "dict":
+            return "(zget %s %s_)" % (self.expr(e.slice), e.value.id)
         raise Unknown("expression " + ast.unparse(e))
 
     def cond(self, e):
         if isinstance(e, ast.UnaryOp) and isinstance(e.op, ast.Not):
             return "(negb %s)" % self.cond(e.operand)
-        if isinstance(e, ast.Compare) and len(e.ops) == 1 and isinstance(e.ops[0], (ast.In, ast.NotIn)):
-            c = "(mem %s %s)" % (self.expr(e.left), self.expr(e.comparators[0]))
+        if isinstance(e, ast.Compare) and len(e.ops) == 1 and isinstance(e.ops[0], (ast.In, ast.NotIn)) \
+                and isinstance(e.comparators[0], ast.Name) and self.known(e.comparators[0].id):
+            box = e.comparators[0].id
+            fn = "zmem" if self.mut.get(box) == "dict" else "mem"
+            c = "(%s %s %s_)" % (fn, self.expr(e.left), box)
             return c if isinstance(e.ops[0], ast.In) else "(negb %s)" % c
         raise Unknown("condition " + ast.unparse(e))
 
-    # ---- statements: block(stmts) is a Gallina term of the state tuple's type, in a context binding the state variables
+    # ---- statements: block(stmts) is a Gallina term of the state type, in a context binding the state components
     def block(self, stmts, in_loop):
         if not stmts:
             return self.tup()
         st, rest = stmts[0], stmts[1:]
+        if ast.unparse(st) in self.skip:
+            return self.block(rest, in_loop)
+        # v.method(e)
         if isinstance(st, ast.Expr) and isinstance(st.value, ast.Call) and isinstance(st.value.func, ast.Attribute) \
                 and isinstance(st.value.func.value, ast.Name) and st.value.func.value.id in self.mut \
                 and len(st.value.args) == 1 and not st.value.keywords:
@@ -92,9 +128,20 @@ class Fn:
             else:
                 raise Unknown("method %s.%s" % (v, m))
             return "let %s_ := %s in %s" % (v, new, self.block(rest, in_loop))
-        if isinstance(st, ast.Assign) and len(st.targets) == 1 and isinstance(st.targets[0], ast.Name) \
-                and st.targets[0].id in self.mut:
-            return "let %s_ := %s in %s" % (st.targets[0].id, self.expr(st.value), self.block(rest, in_loop))
+        # v = e   |   d[k] = e
+        if isinstance(st, ast.Assign) and len(st.targets) == 1:
+            t = st.targets[0]
+            if isinstance(t, ast.Name) and t.id in self.mut:
+                return "let %s_ := %s in %s" % (t.id, self.expr(st.value), self.block(rest, in_loop))
+            if isinstance(t, ast.Subscript) and isinstance(t.value, ast.Name) and self.mut.get(t.value.id) == "dict":
+                return "let %s_ := (zset %s %s %s_) in %s" % (t.value.id, self.expr(t.slice), self.expr(st.value), t.value.id,
+                                                            self.block(rest, in_loop))
+        # raise E(fmt % (a, b, ...)): must end its block
+        if isinstance(st, ast.Raise) and self.err and not rest and isinstance(st.exc, ast.Call) and len(st.exc.args) == 1 \
+                and isinstance(st.exc.args[0], ast.BinOp) and isinstance(st.exc.args[0].op, ast.Mod) \
+                and isinstance(st.exc.args[0].right, ast.Tuple):
+            payload = "(" + ", ".join(self.expr(x) for x in st.exc.args[0].right.elts) + ")"
+            return "let err_ := Some %s in %s" % (payload, self.tup())
         if isinstance(st, ast.If):
             # `if c: ...; continue` inside a loop body: what follows the `if` is the else branch
             if in_loop and st.body and isinstance(st.body[-1], ast.Continue) and not st.orelse:
@@ -104,91 +151,148 @@ class Fn:
                 for n in ast.walk(ast.Module(body=b, type_ignores=[])):
                     if isinstance(n, (ast.Continue, ast.Break, ast.Return)):
                         raise Unknown("jump inside " + ast.unparse(st).splitlines()[0])
+            tail = self.guarded(self.block(rest, in_loop)) if rest else self.tup()
             return "let %s := (if %s then %s else %s) in %s" % (
-                self.pat(), self.cond(st.test), self.block(st.body, False), self.block(st.orelse, False),
-                self.block(rest, in_loop))
+                self.pat(), self.cond(st.test), self.block(st.body, False), self.block(st.orelse, False), tail)
         if isinstance(st, ast.For) and isinstance(st.target, ast.Name) and not st.orelse:
             it = st.iter
-            if not (isinstance(it, ast.Name) and it.id in self.params):
-                raise Unknown("iteration over " + ast.unparse(it))        # never over a set
+            if not isinstance(it, ast.Name):
+                raise Unknown("iteration over " + ast.unparse(it))
             x = st.target.id
-            self.loopvars.append(x)
-            body = self.block(st.body, True)
-            self.loopvars.pop()
+            if it.id in self.pairs:                                   # a list of tuples handed in by the caller
+                fields = self.pairs[it.id]
+                if fields[0][0] != x:
+                    raise Unknown("loop variable %s over %s" % (x, it.id))
+                elem_t = " * ".join(t for _, t in fields)
+                bind = "let '(%s) := elem_ in " % ", ".join(n + "_" for n, _ in fields)
+                new_locals = dict(fields)
+                elem = "elem_"
+            elif it.id in self.params and self.params[it.id].startswith("list "):
+                elem_t, bind, new_locals, elem = self.params[it.id][5:], "", {x: self.params[it.id][5:]}, x + "_"
+            elif it.id in self.locals and self.locals[it.id].startswith("list "):
+                elem_t, bind, new_locals, elem = self.locals[it.id][5:], "", {x: self.locals[it.id][5:]}, x + "_"
+            else:
+                raise Unknown("iteration over " + ast.unparse(it))        # never over a set
+            outer = dict(self.locals)
+            self.locals.update(new_locals)
+            body = self.guarded(self.block(st.body, True))
+            self.locals = outer
             aux = "tr_%s_loop%d" % (self.name, len(self.aux) + 1)
-            ty = " * ".join("list str" for _ in self.mut)
-            self.aux.append("Definition %s (st : %s) (%s_ : str) : %s :=\n  let %s := st in %s." % (
-                aux, ty, x, ty, self.pat(), body))
-            return "let %s := fold_left %s %s_ %s in %s" % (self.pat(), aux, it.id, self.tup(), self.block(rest, in_loop))
+            ps = "".join(" (%s_ : %s)" % (n, t) for n, t in outer.items())
+            self.aux.append("Definition %s%s (st : %s) (%s : %s) : %s :=\n  let %s := st in %s%s." % (
+                aux, ps, self.state_type(), elem, elem_t.strip("()") if " * " not in elem_t else elem_t, self.state_type(),
+                self.pat(), bind, body))
+            call = "(%s%s)" % (aux, "".join(" %s_" % n for n in outer))
+            tail = self.guarded(self.block(rest, in_loop)) if rest else self.tup()
+            return "let %s := fold_left %s %s_ %s in %s" % (self.pat(), call, it.id, self.tup(), tail)
         raise Unknown("statement " + ast.unparse(st).splitlines()[0])
+
+    def guarded(self, term):
+        """once the error slot is set nothing else happens"""
+        if not self.err:
+            return term
+        return "match err_ with Some _ => %s | None => %s end" % (self.tup(), term)
 
     def translate(self, fn):
         body = fn.body
         if body and isinstance(body[0], ast.Expr) and isinstance(body[0].value, ast.Constant):
             body = body[1:]
-        kept = []
-        for st in body:
-            if ast.unparse(st) in self.skip:
-                continue
-            kept.append(st)
+        kept = [st for st in body if ast.unparse(st) not in self.skip]
         if not kept or not isinstance(kept[-1], ast.Return) or kept[-1].value is None:
             raise Unknown("no final return")
         ret = kept[-1].value
         inits, stmts = {}, kept[:-1]
-        # leading initialisations of the mutable variables
         while stmts and isinstance(stmts[0], ast.Assign) and len(stmts[0].targets) == 1 \
                 and isinstance(stmts[0].targets[0], ast.Name) and stmts[0].targets[0].id in self.mut \
                 and stmts[0].targets[0].id not in inits:
             v, val = stmts[0].targets[0].id, stmts[0].value
-            txt = ast.unparse(val)
-            if txt in self.skip_init:
-                inits[v] = self.skip_init[txt]
-            else:
-                inits[v] = self.expr(val)
+            inits[v] = self.init.get(ast.unparse(val)) or self.expr(val)
             stmts = stmts[1:]
         if set(inits) != set(self.mut):
             raise Unknown("mutable variables not all initialised first: " + ", ".join(sorted(set(self.mut) - set(inits))))
         main = " ".join("let %s_ := %s in" % (v, inits[v]) for v in self.mut)
-        # the final expression is evaluated in the final state
-        final = "let %s := (%s) in %s" % (self.pat(), self.block(stmts, False), self.expr(ret))
-        return main + " " + final
+        if self.err:
+            main += " let err_ := (None : option (%s)) in" % self.err
+        result = self.expr(ret)
+        if self.err:
+            result = "match err_ with Some e_ => inr e_ | None => inl %s end" % result
+        return "%s let %s := (%s) in %s" % (main, self.pat(), self.block(stmts, False), result)
+
+
+def find(tree, name, args):
+    fn = next((n for n in tree.body if isinstance(n, ast.FunctionDef) and n.name == name), None)
+    if fn is None:
+        raise Unknown(name + " not found")
+    if [a.arg for a in fn.args.args] != args:
+        raise Unknown("signature of " + name)
+    return fn
 
 
 def target_glyph_order(tree):
-    f = Fn("glyph_order", {"names": "set", "order": "list"}, ["keys", "glyphOrder"],
+    f = Fn("glyph_order", {"names": "set", "order": "list"}, {"keys": "list str", "glyphOrder": "list str"},
            skip={"if glyphOrder is None:\n    glyphOrder = getattr(font, 'glyphOrder', ())":
-                 "the caller-side default; the model takes the resolved list"})
-    f.skip_init = {"set(font.keys())": "keys_"}        # the font's glyph names, duplicate-free
-    fn = next((n for n in tree.body if isinstance(n, ast.FunctionDef) and n.name == "makeOfficialGlyphOrder"), None)
-    if fn is None:
-        raise Unknown("makeOfficialGlyphOrder not found")
-    if [a.arg for a in fn.args.args] != ["font", "glyphOrder"]:
-        raise Unknown("signature of makeOfficialGlyphOrder")
-    term = f.translate(fn)
+                 "the caller-side default; the model takes the resolved list"},
+           init={"set(font.keys())": "keys_"})           # the font's glyph names, duplicate-free
+    term = f.translate(find(tree, "makeOfficialGlyphOrder", ["font", "glyphOrder"]))
     return f.aux + ["Definition tr_glyph_order (keys_ glyphOrder_ : list str) : list str :=\n  %s." % term]
 
 
+def target_u2g(tree):
+    f = Fn("u2g", {"mapping": "dict"}, {"glyphOrder": "list (str * list Z)"}, err="str * Z * str",
+           skip={"if glyphOrder is None:\n    glyphOrder = makeOfficialGlyphOrder(font)": "the caller-side default",
+                 "glyph = font[glyphName]": "the caller hands in (name, unicodes) pairs",
+                 "unicodes = glyph.unicodes": "the caller hands in (name, unicodes) pairs",
+                 "from ufo2ft.errors import InvalidFontData": "import"},
+           pairs={"glyphOrder": [("glyphName", "str"), ("unicodes", "list Z")]})
+    term = f.translate(find(tree, "makeUnicodeToGlyphNameMapping", ["font", "glyphOrder"]))
+    return f.aux + ["Definition tr_u2g (glyphOrder_ : list (str * list Z)) : list (Z * str) + (str * Z * str) :=\n  %s." % term]
+
+
+PRELUDE = """(* GENERATED on every run by harness/imp_from_source.py from /repo's current source -- do not edit. *)
+From Coq Require Import ZArith List String.
+From U2F Require Import Base.Prelude.
+Import ListNotations.
+Open Scope Z_scope.
+
+(* a source construct outside the translated fragment: opaque, nothing can be proved about it *)
+Definition imp_untranslated (what : string) (keys_ glyphOrder_ : list str) : list str. Proof. exact []. Qed.
+Definition imp_untranslated_u2g (what : string) (glyphOrder_ : list (str * list Z)) : list (Z * str) + (str * Z * str).
+Proof. exact (inl []). Qed.
+
+(* Python dicts with integer keys and name values: association lists in insertion order *)
+Fixpoint zfind (k : Z) (m : list (Z * str)) : option str :=
+  match m with [] => None | (k', v) :: m' => if Z.eqb k k' then Some v else zfind k m' end.
+Definition zmem (k : Z) (m : list (Z * str)) : bool := match zfind k m with Some _ => true | None => false end.
+Definition zget (k : Z) (m : list (Z * str)) : str := match zfind k m with Some v => v | None => [] end.   (* KeyError when absent *)
+Fixpoint zset (k : Z) (v : str) (m : list (Z * str)) : list (Z * str) :=
+  match m with [] => [(k, v)] | (k', v') :: m' => if Z.eqb k k' then (k, v) :: m' else (k', v') :: zset k v m' end.
+"""
+
+
 def main():
-    notes, out = [], ["(* GENERATED on every run by harness/imp_from_source.py from /repo's current source -- do not edit. *)",
-                      "From Coq Require Import ZArith List String.", "From U2F Require Import Base.Prelude.",
-                      "Import ListNotations.", "Open Scope Z_scope.", "",
-                      "(* a source construct outside the translated fragment: opaque, nothing can be proved about it *)",
-                      "Definition imp_untranslated (what : string) (keys_ glyphOrder_ : list str) : list str. Proof. exact []. Qed.",
-                      ""]
+    notes, out = [], [PRELUDE]
     try:
         tree = ast.parse(open(os.path.join(REPO, "Lib", "ufo2ft", "util.py")).read())
-        out += target_glyph_order(tree)
-    except (Unknown, OSError, SyntaxError) as u:
-        notes.append("makeOfficialGlyphOrder: " + str(u))
-        out.append("Definition tr_glyph_order (keys_ glyphOrder_ : list str) : list str :=\n  imp_untranslated %s%%string keys_ glyphOrder_."
-                   % coq_string(str(u)))
-    text = "\n".join(out) + "\n"
+    except (OSError, SyntaxError) as e:
+        tree, notes = ast.parse(""), ["util.py unreadable: %s" % e]
+    for name, target, fallback in (
+            ("makeOfficialGlyphOrder", target_glyph_order,
+             "Definition tr_glyph_order (keys_ glyphOrder_ : list str) : list str :=\n  imp_untranslated %s%%string keys_ glyphOrder_."),
+            ("makeUnicodeToGlyphNameMapping", target_u2g,
+             "Definition tr_u2g (glyphOrder_ : list (str * list Z)) : list (Z * str) + (str * Z * str) :=\n  imp_untranslated_u2g %s%%string glyphOrder_.")):
+        try:
+            out += target(tree)
+        except Unknown as u:
+            notes.append("%s: %s" % (name, u))
+            out.append(fallback % coq_string(str(u)))
+        out.append("")
+    text = "\n".join(out)
     old = open(OUT).read() if os.path.exists(OUT) else None
     if old != text:
         open(OUT, "w").write(text)
     for n in notes:
         print("UNTRANSLATED:", n)
-    print("translated makeOfficialGlyphOrder, %d notes" % len(notes))
+    print("translated makeOfficialGlyphOrder, makeUnicodeToGlyphNameMapping; %d notes" % len(notes))
     return 0
 
 
